@@ -1,6 +1,12 @@
 """Per-property check definitions: which functions / lemmas are under deductive contract (engine A), which bounded
 stand-ins run, the level claimed.  Each entry is a function taking a core.Run and returning (level, explanation)."""
 U = 'pyclifford/utils.py::'
+PA = 'pyclifford/paulialg.py::'
+ST = 'pyclifford/stabilizer.py::'
+CLASS_LAYER = [PA + 'Pauli.__matmul__#Pauli', PA + 'Pauli.__neg__', PA + 'Pauli.copy', PA + 'PauliList.copy',
+               PA + 'PauliList.rotate_by#nomask', PA + 'PauliList.transform_by#nomask', ST + 'CliffordMap.copy', ST + 'CliffordMap.compose',
+               ST + 'CliffordMap.to_state#r', ST + 'CliffordMap.to_state#none', ST + 'StabilizerState.copy', ST + 'StabilizerState.to_map',
+               ST + 'StabilizerState.expect#list', ST + 'identity_map']
 
 # every kernel that currently has a discharged contract (their frame.* obligations are the C17 frame conditions)
 KERNELS = [U + f for f in ('acq', 'ipow', 'p0', 'ps0', 'acq_mat', 'pauli_tokenize', 'pauli_combine', 'pauli_transform',
@@ -18,14 +24,14 @@ def q(run, quick, thorough):
 
 
 def C01(run):
-    run.deductive(keys=[U + 'acq', U + 'ipow', U + 'p0', U + 'ps0', U + 'acq_mat'], lemmas=['acq_is_anticount'])
+    run.deductive(keys=[U + 'acq', U + 'ipow', U + 'p0', U + 'ps0', U + 'acq_mat', PA + 'Pauli.__matmul__#Pauli', PA + 'Pauli.__neg__'], lemmas=['acq_is_anticount'])
     run.bounded_check('c01_products', _b().c01_products, Nmax=q(run, 2, 3))
     return 'proof', ('deductive (all N): acq/ipow/p0/ps0/acq_mat equal the oracle spec functions built from the 2x2 matrices '
                      '(AntiCount parity, IpowSum mod 4); bounded: Pauli.__matmul__, chains, polynomial products against dense matrices')
 
 
 def C02(run):
-    run.deductive(keys=[U + 'clifford_rotate', U + 'clifford_rotate_signless', U + 'acq', U + 'ipow'], lemmas=[])
+    run.deductive(keys=[U + 'clifford_rotate', U + 'clifford_rotate_signless', U + 'acq', U + 'ipow', PA + 'PauliList.rotate_by#nomask'], lemmas=[])
     run.bounded_check('c02_rotation', _b().c02_rotation, Nmax=q(run, 2, 3))
     return 'other', ('deductive (all N, all L): clifford_rotate leaves commuting rows unchanged and replaces anticommuting rows by '
                      'i*P*G with the exact phase, modifies only gs/ps; bounded: rotate_by on every receiver kind, all masks, '
@@ -33,21 +39,21 @@ def C02(run):
 
 
 def C03(run):
-    run.deductive(keys=[U + 'pauli_combine', U + 'pauli_transform', U + 'ps0', U + 'ipow'], lemmas=['ipowsum_ext'])
+    run.deductive(keys=[U + 'pauli_combine', U + 'pauli_transform', U + 'ps0', U + 'ipow', PA + 'PauliList.transform_by#nomask'], lemmas=['ipowsum_ext'])
     run.bounded_check('c03_transform', _b().c03_transform, Nmax=q(run, 2, 3), count=q(run, 25, 120))
     return 'other', ('deductive (all N): pauli_combine = ordered product (OrdG/OrdP), pauli_transform = homomorphic extension with the x.z '
                      'correction; bounded: homomorphism / unitarity, masks = embeddings, rotation map = rotation, against dense matrices')
 
 
 def C04(run):
-    run.deductive(keys=[U + 'pauli_transform', U + 'pauli_combine'], lemmas=[])
+    run.deductive(keys=[U + 'pauli_transform', U + 'pauli_combine', ST + 'CliffordMap.compose', ST + 'CliffordMap.copy', ST + 'identity_map'], lemmas=[])
     run.bounded_check('c04_group', _b().c04_group, Nmax=q(run, 2, 3), count=q(run, 20, 80))
     return 'other', ('group laws bounded (N=1 exhaustive over all 24 maps, sampled beyond); compose is pauli_transform whose '
                      'functional contract is deductive; z2inv exhaustive up to 3x3')
 
 
 def C05(run):
-    run.deductive(keys=[U + 'map_to_state', U + 'clifford_rotate'], lemmas=[])
+    run.deductive(keys=[U + 'map_to_state', U + 'clifford_rotate', ST + 'CliffordMap.to_state#r', ST + 'CliffordMap.to_state#none', ST + 'StabilizerState.copy'], lemmas=[])
     run.bounded_check('c05_histories', _b().c05_histories, Nmax=3, walks=q(run, 45, 400), steps=q(run, 10, 25))
     run.bounded_check('c06_measure', _b().c06_measure, Nmax=2, count=q(run, 25, 200), reps=q(run, 2, 4))
     return 'other', ('bounded: random histories from every constructor with the tableau invariant and dense validity checked after every '
@@ -63,7 +69,7 @@ def C06(run):
 
 
 def C07(run):
-    run.deductive(keys=[U + 'stabilizer_expect', U + 'acq', U + 'ipow'], lemmas=['ipowsum_ext'])
+    run.deductive(keys=[U + 'stabilizer_expect', U + 'acq', U + 'ipow', ST + 'StabilizerState.expect#list'], lemmas=['ipowsum_ext'])
     run.bounded_check('c07_expect', _b().c07_expect, Nmax=q(run, 2, 3), count=q(run, 40, 120))
     return 'other', ('deductive (all N): stabilizer_expect returns 0 iff a row of index < N+r anticommutes, otherwise the sign of the ordered '
                      'product of the destabilizer-selected active stabilizers, no side effects; bounded: identification with Tr(rho P), '
@@ -92,7 +98,7 @@ def C11(run):
 
 
 def C12(run):
-    run.deductive(keys=[U + 'map_to_state', U + 'state_to_map'], lemmas=[])
+    run.deductive(keys=[U + 'map_to_state', U + 'state_to_map', ST + 'CliffordMap.to_state#r', ST + 'CliffordMap.to_state#none', ST + 'StabilizerState.to_map', ST + 'identity_map'], lemmas=[])
     run.bounded_check('c12_states', _b().c12_states, Nmax=q(run, 3, 3), count=q(run, 20, 80))
     return 'other', ('deductive (all N): map_to_state / state_to_map are the exact row and phase permutations (Z-images -> stabilizers, '
                      'X-images -> destabilizers); bounded: constructors, to_state/to_map round trip, to_qutip, stabilizer_state against dense matrices')
@@ -122,7 +128,7 @@ def C16(run):
 
 
 def C17(run):
-    run.deductive(keys=KERNELS, lemmas=['ipowsum_ext', 'acq_is_anticount'])
+    run.deductive(keys=KERNELS + CLASS_LAYER, lemmas=['ipowsum_ext', 'acq_is_anticount'])
     run.bounded_check('c17_copies', _b().c17_copies, Nmax=3, rounds=q(run, 20, 120))
     return 'other', ('deductive (all N): the frame condition (modifies clause) of every kernel under contract: arguments not listed are '
                      'unchanged, results are fresh or exactly the in-place arguments; bounded: copy of every object kind, query methods with '
